@@ -73,6 +73,7 @@ def eval_dyad_amend(a, b, backend):
         if isinstance(r, numpy.ndarray):
             numpy.put(r, numpy.asarray(b[1:],dtype=int), v)
         else:
+            r = r.clone() # array() hands a tensor back as it is: "a" itself must not change
             r[[int(i) for i in b[1:]]] = backend.scalar_to_python(v)
         return r
     # positions name members of "a" (the rows of a matrix), and the value may be of another kind than the members
